@@ -21,7 +21,7 @@ from .rec_pipeline import DEFAULT_H, default_cfg, make_evaluator
 from .checks_pipeline import rand_handler
 
 C18_CLAUSES = ["T_Completes", "T_MetricsDashFree", "T_HeaderWritten", "T_HeaderParses", "T_SubjectsRecovered", "T_GroupsRecovered",
-               "T_NoColumnShift", "T_ReadBack"]
+               "T_NoColumnShift", "T_ReadBack", "T_LineCount", "T_HeaderText", "T_RowText"]
 C20_CLAUSES = ["T_Completes", "T_Loaded", "T_PerSubject", "T_Summary", "T_OrderIrrelevant", "T_Across", "T_AcrossValues",
                "T_QueriesReadOnly"]
 
@@ -74,7 +74,7 @@ def rec_c18(rng, workdir: Path, meta=None) -> dict:
             gd[n] = LabelMergeGroup([lab]) if rng.random() < 0.2 else LabelGroup([lab], single_instance=False)
         groups = SegmentationClassGroups(gd)
     subjects = rng.sample(SUBJECT_NAMES, rng.randint(1, 4))
-    rec = {"groups": [], "metrics": [], "header": [], "first": [], "subjects": [chars(s) for s in subjects], "reported": [],
+    rec = {"groups": [], "metrics": [], "header": [], "first": [], "subjects": [chars(s) for s in subjects], "reported": [], "lines": [], "celltext": [],
            "fsubjects": [], "loaded": [], "lgroups": [], "lmetrics": [], "out": "ok",
            "meta": {"gen": "random", "group_names": names if use_groups else ["ungrouped"], "subject_names": subjects, "cfg": {k: v for k, v in cfg.items() if k != "h"}}}
     shutil.rmtree(workdir, ignore_errors=True)
@@ -94,12 +94,14 @@ def rec_c18(rng, workdir: Path, meta=None) -> dict:
                 pred = np.zeros(shape, dtype=np.uint8) if x < 0.15 else (gen.rand_instances(rng, shape, rng.randint(1, 3)) % (k + 1)).astype(np.uint8)
                 ref = np.zeros(shape, dtype=np.uint8) if 0.1 < x < 0.25 else (gen.rand_instances(rng, shape, rng.randint(1, 3)) % (k + 1)).astype(np.uint8)
                 res = ev.evaluate(pred.copy(), ref.copy(), verbose=False)
-                row = []
+                row, texts = [], []
                 for g in gnames:
                     d = res[g][0].to_dict()
                     for key in keys:
                         row.append(ftoken(d[key]) if key in d else "absent")
+                        texts.append(chars("" if key not in d else ("" if d[key] is None else str(d[key]))))
                 reported.append(row)
+                rec["celltext"].append(texts)
                 agg.evaluate(pred, ref, s)
             rec["groups"] = [chars(g) for g in gnames]
             rec["metrics"] = [chars(k) for k in keys]
@@ -108,6 +110,7 @@ def rec_c18(rng, workdir: Path, meta=None) -> dict:
             import csv
             import io
             rows = list(csv.reader(io.StringIO(text, newline=""), delimiter="\t", lineterminator="\n"))
+            rec["lines"] = [chars(ln + "\n") for ln in text.split("\n")[:-1]]
             rec["first"] = chars(rows[0][0])
             rec["header"] = [chars(c) for c in rows[0][1:]]
             st = Panoptica_Statistic.from_file(str(out))
@@ -126,7 +129,7 @@ def rec_c18(rng, workdir: Path, meta=None) -> dict:
         rec["out"] = "raise"
         rec["meta"]["exception"] = f"{type(e).__name__}: {e}"[:300]
         rec["meta"]["tb"] = traceback.format_exc()[-700:]
-        for k in ("groups", "metrics", "header", "first", "reported", "fsubjects", "loaded", "lgroups", "lmetrics"):
+        for k in ("groups", "metrics", "header", "first", "reported", "fsubjects", "loaded", "lgroups", "lmetrics", "lines", "celltext"):
             rec[k] = rec[k] or []
     finally:
         shutil.rmtree(workdir, ignore_errors=True)
